@@ -246,6 +246,34 @@ impl Case {
     }
 }
 
+/// Waits until one more call than `before` is being held by the probe. A scenario whose held evaluation never gets there
+/// within the watchdog time cannot be judged: the run ends as inconclusive (exit 2), never as a violation.
+async fn wait_parked(before: usize) {
+    let started = std::time::Instant::now();
+    while rvv::probe::PARKED.load(Ordering::SeqCst) <= before {
+        tokio::task::yield_now().await;
+        if started.elapsed().as_secs() > SCENARIO_WATCHDOG_SECS {
+            inconclusive("the evaluation that was to be held suspended never reached its held call");
+        }
+    }
+}
+
+const SCENARIO_WATCHDOG_SECS: u64 = 600;
+
+fn inconclusive(what: &str) -> ! {
+    rvv::probe::PARK_RELEASE.store(true, Ordering::SeqCst);
+    println!("INCONCLUSIVE property=C18 watchdog: {what} ({SCENARIO_WATCHDOG_SECS} s); no verdict");
+    std::process::exit(2)
+}
+
+/// Runs a scenario under the watchdog.
+async fn watched<T>(what: &str, f: impl std::future::Future<Output = T>) -> T {
+    match tokio::time::timeout(std::time::Duration::from_secs(SCENARIO_WATCHDOG_SECS), f).await {
+        Ok(v) => v,
+        Err(_) => inconclusive(what),
+    }
+}
+
 /// One evaluation is held suspended inside a user function while tens of thousands of other evaluations of the same
 /// ruleset start and finish; when it is let go it must finish as if it had run alone (its own results, one invocation
 /// per cacheable call).
@@ -269,20 +297,16 @@ fn check_parked(rt: &tokio::runtime::Runtime, others: usize, hold_ms: u64) -> Ve
     let base_out = detach(rt.block_on(base.ruleset.evaluate_value(&facts(1000))).expect("evaluate_value"));
     let base_log = attributed(&base.log.lock().unwrap(), 0);
     let built = probe::build(&spec, true);
-    let log = built.log.clone();
+    let _ = &built.log;
     let rs = Arc::new(built.ruleset);
     PARK_RELEASE.store(false, Ordering::SeqCst);
     rvv::probe::PARK_ONCE.store(true, Ordering::SeqCst);
-    let (parked_out, others_ok) = rt.block_on(async {
+    let parked_before = rvv::probe::PARKED.load(Ordering::SeqCst);
+    let (parked_out, others_ok) = rt.block_on(watched("the held-evaluation scenario did not finish", async {
         let rs1 = rs.clone();
         let parked = tokio::spawn(async move { detach(rs1.evaluate_value(&rvv::pool::map(&[("id", Value::Int(1000))])).await.expect("evaluate_value")) });
-        // wait until it is really parked (it has made its first two calls)
-        for _ in 0..100_000 {
-            tokio::task::yield_now().await;
-            if log.lock().unwrap().len() >= 2 {
-                break;
-            }
-        }
+        // wait until it is really parked (it has made its first two calls and the second one is being held)
+        wait_parked(parked_before).await;
         let rs2 = rs.clone();
         let runner = tokio::spawn(async move {
             let f = rvv::pool::map(&[("id", Value::Int(1001))]);
@@ -306,7 +330,7 @@ fn check_parked(rt: &tokio::runtime::Runtime, others: usize, hold_ms: u64) -> Ve
         }
         PARK_RELEASE.store(true, Ordering::SeqCst);
         (parked.await.ok(), others_ok)
-    });
+    }));
     PARK_RELEASE.store(true, Ordering::SeqCst);
     let mine = attributed(&built.log.lock().unwrap(), 0);
     let describe = |o: &Outs| o.iter().map(|(n, v)| format!("{n}={}", v.as_ref().map(show_value).unwrap_or_else(|e| format!("Err({e})")))).collect::<Vec<_>>();
@@ -362,24 +386,20 @@ fn check_same_address_inputs(rt: &tokio::runtime::Runtime) -> Verdict {
     };
     let message = Arc::new(Message { order: Order { total: 7 } });
     let built = probe::build(&spec, true);
-    let log = built.log.clone();
+    let _ = &built.log;
     let rs = Arc::new(built.ruleset);
     PARK_RELEASE.store(false, Ordering::SeqCst);
     rvv::probe::PARK_ONCE.store(true, Ordering::SeqCst);
-    let (held, inner, other) = rt.block_on(async {
+    let parked_before = rvv::probe::PARKED.load(Ordering::SeqCst);
+    let (held, inner, other) = rt.block_on(watched("the same-address scenario did not finish", async {
         let (rs1, m1) = (rs.clone(), message.clone());
         let held = tokio::spawn(async move { detach(rs1.evaluate(&*m1).await.expect("evaluate")) });
-        for _ in 0..100_000 {
-            tokio::task::yield_now().await;
-            if !log.lock().unwrap().is_empty() {
-                break;
-            }
-        }
+        wait_parked(parked_before).await;
         let inner = detach(rs.evaluate(&message.order).await.expect("evaluate"));
         let other = detach(rs.evaluate(&Order { total: 9 }).await.expect("evaluate"));
         PARK_RELEASE.store(true, Ordering::SeqCst);
         (held.await.ok(), inner, other)
-    });
+    }));
     PARK_RELEASE.store(true, Ordering::SeqCst);
     let order_map = |t: i128| rvv::pool::map(&[("total", Value::Int(t))]);
     let want_inner = order_map(7);
